@@ -110,6 +110,20 @@ func (comp) Gen(prop string, rng *rand.Rand, tier string) *core.History {
 			batch = 0
 		}
 	}
+	if core.Chance(rng, 1, 60) {
+		// configurations ON the accepting side of the constructor's bounds
+		switch rng.Intn(3) {
+		case 0:
+			chunks, maxItems, batch = 128, core.Pick(rng, []uint64{128, 256}), 128
+		case 1:
+			maxBytes = 1 << 30
+		case 2:
+			maxItems, maxBytes = 4, 4
+			if chunks > 4 {
+				chunks = 4
+			}
+		}
+	}
 	h.SetConfig(core.N(uint64(kind)), core.N(chunks), core.N(maxItems), core.N(maxBytes), core.N(batch), universeTok(nkeys))
 
 	sizes := []int64{0, 1, 1, 2, 3, 10, 10, int64(maxBytes) + 1}
